@@ -1,4 +1,4 @@
-// @lemma-for: C01
+// @lemma-for: C01,C03,C11
 // U7 for the client table (property C01): the history argument as checked lemmas.
 //
 // The step relations `step_insert / step_complete / step_cancel / step_expire` are what the contracts of
@@ -8,7 +8,11 @@
 // (`lemma_steps_are_apply`).  `lemma_history` then shows, by induction over *every* sequence of such
 // steps, the invariant `inv`, whose fourth clause is C01: a delivery that stems from a response went to
 // the oneshot channel of the call that owns the response's id and carries a value that was received for
-// that id; its last clause is "at most one delivery per call".
+// that id; its last clause is "at most one delivery per call".  A second invariant (`binv`) counts routes:
+//   inserted(id) = completed(id) + cancelled(id) + expired(id) + [id still tracked]        for every id,
+// so (with ids inserted at most once, A-ids) an entry is removed by a cancellation at most once and never after a
+// response or an expiry removed it (C03: a Cancel is written only when `cancel_request` finds the entry), and when
+// every inserted request has ended nothing is tracked (C11).
 // Environment assumptions (in `admissible`): the oneshot channel of a new call is fresh (A-oneshot,
 // A-pair: `Channel::call` creates it); the dispatch is the table's only owner (Rust ownership).
 /// The step relations: exactly what the contracts of the table functions say about (view, effect log).
@@ -42,6 +46,11 @@ pub struct Hist<Res> {
     pub owner: Map<int, u64>,
     pub responses: Seq<(u64, Res)>,
     pub prov: Seq<Prov>,
+    /// ids by the route their entry took: inserted; removed by a processed response; by a cancellation; by expiry
+    pub inserted: Seq<u64>,
+    pub completed: Seq<u64>,
+    pub cancelled: Seq<u64>,
+    pub expired: Seq<u64>,
 }
 pub enum Step<Res> {
     Insert { id: u64, e: CEntry },
@@ -50,7 +59,7 @@ pub enum Step<Res> {
     Expire { id: u64, value: Res },
 }
 pub open spec fn hist0<Res>() -> Hist<Res> {
-    Hist { view: Map::empty(), log: Seq::empty(), owner: Map::empty(), responses: Seq::empty(), prov: Seq::empty() }
+    Hist { view: Map::empty(), log: Seq::empty(), owner: Map::empty(), responses: Seq::empty(), prov: Seq::empty(), inserted: Seq::empty(), completed: Seq::empty(), cancelled: Seq::empty(), expired: Seq::empty() }
 }
 /// a step is admissible if the environment assumptions hold: a call's oneshot channel is fresh (A-oneshot, A-pair)
 pub open spec fn admissible<Res>(h: Hist<Res>, s: Step<Res>) -> bool {
@@ -63,15 +72,15 @@ pub open spec fn admissible<Res>(h: Hist<Res>, s: Step<Res>) -> bool {
 pub open spec fn apply<Res>(h: Hist<Res>, s: Step<Res>) -> Hist<Res> {
     match s {
         Step::Insert { id, e } =>
-            if h.view.contains_key(id) { h } else { Hist { view: h.view.insert(id, e), owner: h.owner.insert(e.chan, id), ..h } },
+            if h.view.contains_key(id) { h } else { Hist { view: h.view.insert(id, e), owner: h.owner.insert(e.chan, id), inserted: h.inserted.push(id), ..h } },
         Step::Complete { id, value } =>
             if h.view.contains_key(id) {
                 Hist { view: h.view.remove(id), log: h.log.push(Effect::Deliver { chan: h.view[id].chan, value }),
-                       responses: h.responses.push((id, value)), prov: h.prov.push(Prov::Response { id }), ..h }
+                       responses: h.responses.push((id, value)), prov: h.prov.push(Prov::Response { id }), completed: h.completed.push(id), ..h }
             } else { Hist { responses: h.responses.push((id, value)), ..h } },
-        Step::Cancel { id } => Hist { view: h.view.remove(id), ..h },
+        Step::Cancel { id } => if h.view.contains_key(id) { Hist { view: h.view.remove(id), cancelled: h.cancelled.push(id), ..h } } else { h },
         Step::Expire { id, value } =>
-            Hist { view: h.view.remove(id), log: h.log.push(Effect::Deliver { chan: h.view[id].chan, value }), prov: h.prov.push(Prov::Expiry), ..h },
+            Hist { view: h.view.remove(id), log: h.log.push(Effect::Deliver { chan: h.view[id].chan, value }), prov: h.prov.push(Prov::Expiry), expired: h.expired.push(id), ..h },
     }
 }
 /// the contracts' step relations are exactly `apply` on (view, log)
@@ -87,7 +96,7 @@ pub proof fn lemma_steps_are_apply<Res>(h: Hist<Res>, s: Step<Res>, v2: Map<u64,
     ensures apply(h, s).view =~= v2, apply(h, s).log == l2,
 {
     match s {
-        Step::Cancel { id } => {},
+        Step::Cancel { id } => { if !h.view.contains_key(id) { assert(h.view.remove(id) =~= h.view); } },
         _ => {},
     }
 }
@@ -101,6 +110,20 @@ pub open spec fn admissible_all<Res>(steps: Seq<Step<Res>>) -> bool
     decreases steps.len()
 {
     if steps.len() == 0 { true } else { admissible_all(steps.drop_last()) && admissible(run(steps.drop_last()), steps.last()) }
+}
+pub open spec fn count(s: Seq<u64>, id: u64) -> nat
+    decreases s.len()
+{
+    if s.len() == 0 { 0 } else { count(s.drop_last(), id) + if s.last() == id { 1nat } else { 0nat } }
+}
+proof fn lemma_count_push(s: Seq<u64>, x: u64, id: u64)
+    ensures count(s.push(x), id) == count(s, id) + if x == id { 1nat } else { 0nat }
+{
+    assert(s.push(x).drop_last() =~= s);
+}
+/// C03 / C11 (client): every inserted request leaves the table by exactly one route, or is still tracked
+pub open spec fn balance<Res>(h: Hist<Res>, id: u64) -> bool {
+    count(h.inserted, id) == count(h.completed, id) + count(h.cancelled, id) + count(h.expired, id) + if h.view.contains_key(id) { 1nat } else { 0nat }
 }
 pub open spec fn chan_at<Res>(h: Hist<Res>, i: int) -> int { h.log[i]->chan }
 pub open spec fn inv<Res>(h: Hist<Res>) -> bool {
@@ -192,15 +215,44 @@ pub proof fn lemma_apply_preserves_inv<Res>(h: Hist<Res>, s: Step<Res>)
     }
 }
 
+pub open spec fn binv<Res>(h: Hist<Res>) -> bool { forall|id: u64| #[trigger] balance(h, id) }
+pub proof fn lemma_apply_preserves_balance<Res>(h: Hist<Res>, s: Step<Res>)
+    requires binv(h), admissible(h, s)
+    ensures binv(apply(h, s))
+{
+    let h2 = apply(h, s);
+    assert forall|x: u64| #[trigger] balance(h2, x) by {
+        assert(balance(h, x));
+        match s {
+            Step::Insert { id, e } => { lemma_count_push(h.inserted, id, x); },
+            Step::Complete { id, value } => { lemma_count_push(h.completed, id, x); },
+            Step::Cancel { id } => { lemma_count_push(h.cancelled, id, x); },
+            Step::Expire { id, value } => { lemma_count_push(h.expired, id, x); },
+        }
+    }
+}
+/// C03 / C11 corollaries, under A-ids (every id is inserted at most once): an entry is removed by a cancellation at
+/// most once and never after a response or an expiry removed it; when every inserted request has ended, nothing is tracked.
+pub proof fn lemma_at_most_one_end<Res>(h: Hist<Res>, id: u64)
+    requires binv(h), count(h.inserted, id) <= 1
+    ensures count(h.cancelled, id) + count(h.completed, id) + count(h.expired, id) <= 1,
+            count(h.cancelled, id) + count(h.completed, id) + count(h.expired, id) == count(h.inserted, id) ==> !h.view.contains_key(id),
+{
+    assert(balance(h, id));
+}
+
 /// C01 over every history: whatever sequence of table operations the dispatch performs (each satisfying its
 /// contract, hence an `apply` step), a response's value is delivered only to the call that owns the response's id.
 pub proof fn lemma_history<Res>(steps: Seq<Step<Res>>)
     requires admissible_all(steps)
-    ensures inv(run(steps))
+    ensures inv(run(steps)), binv(run(steps))
     decreases steps.len()
 {
     if steps.len() > 0 {
         lemma_history(steps.drop_last());
         lemma_apply_preserves_inv(run(steps.drop_last()), steps.last());
+        lemma_apply_preserves_balance(run(steps.drop_last()), steps.last());
+    } else {
+        assert forall|id: u64| #[trigger] balance(hist0::<Res>(), id) by {}
     }
 }
